@@ -30,6 +30,14 @@ type c08Thread struct {
 	next    int
 	cur     *vmstep.Stepper
 	results []string
+	outs    []interface{} // the values themselves: rendered again when the whole execution is over
+	errs    []error
+}
+
+func (t *c08Thread) record() {
+	t.results = append(t.results, c08lib.Result(t.cur.Out, t.cur.Err))
+	t.outs = append(t.outs, t.cur.Out)
+	t.errs = append(t.errs, t.cur.Err)
 }
 
 func (t *c08Thread) Enabled() bool {
@@ -40,7 +48,7 @@ func (t *c08Thread) Step() {
 	for {
 		if t.cur == nil || t.cur.Done {
 			if t.cur != nil {
-				t.results = append(t.results, c08lib.Result(t.cur.Out, t.cur.Err))
+				t.record()
 				t.cur = nil
 			}
 			if t.next >= len(t.progs) {
@@ -63,7 +71,7 @@ func (t *c08Thread) Step() {
 		if !t.cur.Done {
 			return
 		}
-		t.results = append(t.results, c08lib.Result(t.cur.Out, t.cur.Err))
+		t.record()
 		t.cur = nil
 		if t.next >= len(t.progs) {
 			return
@@ -89,7 +97,7 @@ func (x *c08Exec) Finish() {
 	for _, t := range x.threads {
 		if t.cur != nil {
 			t.cur.Finish()
-			t.results = append(t.results, c08lib.Result(t.cur.Out, t.cur.Err))
+			t.record()
 			t.cur = nil
 		}
 	}
@@ -211,6 +219,12 @@ func c08(r *report.Run) {
 						got = t.results[ri]
 					}
 					outcomes[got] = true
+					if ri < len(t.outs) && got == want {
+						if again := c08lib.Result(t.outs[ri], t.errs[ri]); again != got {
+							r.Report(report.Violation{Sub: "scheduler", Kind: "result-changed-after-the-run-returned", Witness: fmt.Sprintf("program %q", c08lib.Sources[pe[0]]), Order: order,
+								Detail: map[string]interface{}{"scenario": sc.name, "schedule": fmt.Sprint(schedule), "thread": ti, "returned": got, "later": again}})
+						}
+					}
 					if got != want {
 						r.Report(report.Violation{Sub: "scheduler", Kind: "result-differs-from-solo", Witness: fmt.Sprintf("program %q", c08lib.Sources[pe[0]]), Order: order,
 							Detail: map[string]interface{}{"scenario": sc.name, "schedule": fmt.Sprint(schedule), "thread": ti, "expected": want, "observed": got}})
